@@ -2,7 +2,7 @@
    einsum subscripts are the block-wise interleavings of the rearranged chain, inadmissible positions /
    dimension specifications are rejected. *)
 From Coq Require Import ZArith List Arith Lia Bool Permutation Sorted.
-From FF Require Import Model.Tensor Proofs.TensorOrder.
+From FF Require Import Model.Tensor Spec.Kron Proofs.TensorIdx Proofs.TensorOrder.
 Import ListNotations.
 
 (* ------------------------------------------------------------------ slices of letter ranges *)
@@ -19,12 +19,6 @@ Proof.
 Qed.
 Lemma slice_seq a n i j : slice (seq a n) i j = seq (a + i) (Nat.min (j - i) (n - i)).
 Proof. unfold slice. rewrite skipn_seq, firstn_seq. reflexivity. Qed.
-
-Lemma flat_map_ext_in {A B} (f g : A -> list B) l : (forall x, In x l -> f x = g x) -> flat_map f l = flat_map g l.
-Proof.
-  induction l as [|a l IH]; simpl; intros H; auto.
-  rewrite (H a (or_introl eq_refl)). rewrite IH by (intros; apply H; right; assumption). reflexivity.
-Qed.
 
 (* ------------------------------------------------------------------ tensor_merge subscripts *)
 (* Letter r*m + j is axis r of constituent j of ins, letter m*rank + r*n + k is axis r of constituent k
